@@ -52,6 +52,21 @@ def run(tier, res, replay=None):
     lab = scenarios.single_lattice(rng, tier)
     cores = scenarios.core_lattice(rng, tier)
     lab += cores[:2] if tier == 'quick' else cores
+    # cores with the other gap models and an all-low-fidelity core (only the
+    # assembly-side clauses of C01 apply to them)
+    for gm in ('no_flow', 'duct_average'):
+        c = copy.deepcopy(cores[0][1])
+        c['gap_model'] = gm
+        lab.append((f'{cores[0][0]}-{gm}', c))
+    from harness.scenarios import fitted_type, layout_positions, make_core, \
+        flow_for
+    U = fitted_type(3, 0.060, use_low_fidelity_model=True,
+                    low_fidelity_model='simple')
+    p7 = layout_positions(7)
+    lab.append(('7-all-lowfi', make_core(
+        rng, {'U': U}, [(r_, p_, 'U') for (r_, p_) in p7],
+        [flow_for(U, 0.1) * f for f in (1, .9, .8, 1.1, .7, 1.2, .6)],
+        gap_model='flow', bypass_fraction=0.03)))
     pairs = lag_pairs(rng, tier)
     results = marchcheck.run_cases(lab + pairs, res, C01_CLAUSES)
     # ---- lag class: sweep residual shrinks linearly with the step
